@@ -11,19 +11,27 @@ RULE = ("messages of every total length k*(ps-8)+d, k in 0..3, d in {-1,0,+1}, f
         "+ random sizes (all 9..300 + 200 random thorough), split over 1, 2 and many QueuePackage calls (every 2-split for short messages), each package written in 1..3 "
         "WriteBytes chunks, flushed by SendRemainingPackets or SendPackage, header types LANG/LOGIN/RPC/NORMAL, channel ids {0,1,255,256,65535}, packet counter started at 0/250/255; "
         "every third case is a 3-message history with a packet size change between the messages; plus real LanguagePackage encodings and random 1..5-message histories. "
-        "Observable: the bytes of every transport write, per message. Non-trivial: payload of at least one full packet body or at least two packages; distinct by input.")
+        "Interrupted sends (fn 2): histories of QueuePackage/SendPackage/SendRemainingPackets calls, each with a live context or one that the capturing transport cancels "
+        "after the k-th packet write of the call (k=0: already cancelled): every (budget k in 0..packets, boundary d) combination for messages of 1..4 packets over the same sizes "
+        "(5 continuations: live flush / further QueuePackage / SendPackage / interrupted SendPackage / interrupted flush = abandoned message), several failed calls in a row, failures in the "
+        "middle of multi-package messages, flushes of an empty queue with a dead context, random call histories; every history is followed by a fault-free message on the same channel. "
+        "Observable: the bytes of every transport write, per message (fn 2: per call, with the error flag and whether packets stay queued). Non-trivial: payload of at least one full packet body or at least two packages; distinct by input.")
 TRUSTED = ["Coq 8.16.1 kernel + vm_compute", "hand-written models coq/theories/C15/Model.v and C01/Model.v (tied by correspondence)",
            "constants hdr_size/eom_bit/buf_normal re-tabulated from the code (Gen/GenC01.v)",
            "harness/cmd/c01 (capturing transport, chunk packages), tds/verif_hooks.go, ocaml/driver.ml, extraction (ExtrOcamlBasic)"]
 ASSUMPTIONS = ["the packet size does not change within a message", "the transport accepts every write completely",
-               "contexts are live (cancellation is C13)", "channel ids > 0 are set through a verif hook (channel setup itself is C12)"]
+               "contexts of the interrupted histories are cancelled only between packet writes, by the transport after the k-th write (what C13 says about cancellation is not repeated here); a transport write never fails", "channel ids > 0 are set through a verif hook (channel setup itself is C12)"]
 LEVEL_TEXT = ("Machine-checked theorems C01_message and C01_history: for every packet size 9..65535, channel id, header type, packet counter, "
               "every list of packages written in any chunks and every history of messages (packet size per message), the bytes written by the model of "
               "QueuePackage/SendRemainingPackets/sendPackets/sendPacket on the concrete PacketQueue model satisfy the independent well-formedness predicate tx_ok "
               "(bodies concatenate to the payload, header length = real size <= packet size, all but the last full, type/channel constant, consecutive packet "
               "numbers mod 256, EOM on the last packet only) and leave the queue empty. Proof by induction over packages and messages using the C15 write-layout "
-              "theorem; the exact-multiple lengths are covered by the universally quantified statement. The model is compared with the Go channel on the bytes of every transport write.")
-LEVEL_NOTE = ("Trusted: Coq kernel; the hand-written tx model (validated by correspondence on ~1000 message histories per quick run incl. all boundary lengths); "
+              "theorem; the exact-multiple lengths are covered by the universally quantified statement. The model is compared with the Go channel on the bytes of every transport write. "
+              "Interrupted sends: C01_interrupted_queue - from every queue state reachable between QueuePackage calls (invariant msg_qi, C01_interrupted_states), for every package list and EVERY "
+              "budget per call (context done after k packets), the writes of the interrupted QueuePackage calls plus a live flush equal those of the uninterrupted message, same final state; "
+              "C01_interrupted_message: they satisfy tx_ok. Interrupted flushes / SendPackage (message abandoned by the deferred reset) are covered by the model-vs-code comparison and the "
+              "executable predicate segments_ok on every generated history, not by a universally quantified theorem.")
+LEVEL_NOTE = ("Trusted: Coq kernel; the hand-written tx model (validated by correspondence on ~1350 fault-free message histories and ~3300 interrupted call histories per quick run incl. all boundary lengths); "
               "constants from Gen/GenC01.v; harness + verif hooks; extraction + OCaml driver. Assumes the packet size is constant within a message and the transport accepts full writes.")
 def nontrivial(c):
     return len(c[1]) > 60
